@@ -670,8 +670,13 @@ class Watcher(object):
                 logger.debug('running %s process [pid %d]', self.name,
                              process.pid)
                 if not self.call_hook('after_spawn', pid=process.pid):
-                    self.kill_process(process)
-                    del self.processes[process.pid]
+                    # keep the process in our table until it is really
+                    # gone: the SIGKILL escalation only reaches processes
+                    # we still know about
+                    self.loop.add_future(
+                        self.kill_process(process),
+                        lambda f, pid=process.pid:
+                            self.processes.pop(pid, None))
                     return False
 
             # catch ValueError as well, as a misconfigured rlimit setting could
